@@ -46,21 +46,20 @@ func findPlatformGate(c *Ctx) *gateInfo {
 		if b, ok := res.At(0).Type().Underlying().(*types.Basic); !ok || b.Kind() != types.Bool {
 			continue
 		}
-		cmdP, hasOpt := -1, false
+		cmdP := -1
 		for i, p := range fn.Params {
 			if ssau.NamedOf(p.Type()) == cmdType {
 				cmdP = i
 			}
-			if ssau.NamedOf(p.Type()) == optType {
-				hasOpt = true
-			}
 		}
-		if cmdP < 0 || !hasOpt {
+		if cmdP < 0 {
 			continue
 		}
+		// it consults AllPlatforms: the option itself, or a field of a
+		// per-search filter object that only ever receives it
 		reads := false
 		ssau.ForEachInstr(fn, false, func(in ssa.Instruction) {
-			if fa, ok := in.(*ssa.FieldAddr); ok && ssau.FieldName(fa) == "AllPlatforms" && ssau.NamedOf(fa.X.Type()) == optType {
+			if v, ok := in.(ssa.Value); ok && optLoad(v, "AllPlatforms") {
 				reads = true
 			}
 		})
@@ -652,6 +651,20 @@ func c04Gate(c *Ctx, sx *symx.Ctx, g *gateInfo) {
 				if l.Over != nil && optLoad(l.Over, "Platforms") && l.InLoop(cl.call.Block()) {
 					inLoop = true
 				}
+				// or the list of platforms in force, resolved once per search by a
+				// helper: [host] when none is requested, otherwise one (normalised)
+				// entry per requested platform
+				if l.Over != nil && !l.IsMap && l.InLoop(cl.call.Block()) {
+					if hostOK, reqOK := c04InForceList(c, l.Over); hostOK && reqOK {
+						if u, ok := cl.what.(*ssa.UnOp); ok {
+							if ia, ok := u.X.(*ssa.IndexAddr); ok && ia.Index == l.Index {
+								nHost++
+								nReq++
+								r.OK("O-2", fk+"#host-platform-only-when-none-requested", c.P.Pos(cl.call.Pos()), "the list in force holds the host platform only when no platform was requested, otherwise every requested one")
+							}
+						}
+					}
+				}
 			}
 			elem := false
 			for _, rt := range tr.Roots(cl.what) {
@@ -752,9 +765,30 @@ func c04Case(c *Ctx, g *gateInfo) {
 			continue
 		}
 		ord := newOrdinal()
-		checkOperand := func(v ssa.Value) (bool, string) {
+		var checkOperand func(v ssa.Value) (bool, string)
+		depthCO := 0
+		checkOperand = func(v ssa.Value) (bool, string) {
 			for _, rt := range tr.Roots(v) {
 				switch {
+				case rt.Kind == "elem" && depthCO < 3:
+					// an element of a list built by a helper of the repository: what the helper puts there
+					var elems []ssa.Value
+					if u, ok := rt.V.(*ssa.UnOp); ok {
+						if ia, ok := u.X.(*ssa.IndexAddr); ok {
+							elems = c04ListElems(c, ia.X)
+						}
+					}
+					if len(elems) == 0 {
+						return false, rt.String()
+					}
+					depthCO++
+					for _, e := range elems {
+						if ok, w := checkOperand(e); !ok {
+							depthCO--
+							return false, w
+						}
+					}
+					depthCO--
 				case rt.Kind == "const":
 				case rt.Kind == "call" && (rt.Name == "strings.ToLower" || strings.HasSuffix(rt.Name, ".getCurrentPlatform") || strings.HasSuffix(rt.Name, ".normalizePlatformName")):
 				case rt.Kind == "global" && strings.Contains(rt.Name, "runtime.GOOS"):
@@ -960,4 +994,210 @@ func c04Aliases(c *Ctx, g *gateInfo) {
 		}
 	}
 	r.Floor("O-5", "alias tests read into the table", nTag, 11)
+}
+
+// c04ListSources: the list values a container expression can hold when it is
+// a field of a per-search object (every store to that field) — each either a
+// list value or a call of a repository helper that builds one.
+func c04ListSources(c *Ctx, v ssa.Value) []ssa.Value {
+	var owner, name string
+	switch x := v.(type) {
+	case *ssa.UnOp:
+		fa, ok := x.X.(*ssa.FieldAddr)
+		if !ok {
+			return []ssa.Value{v}
+		}
+		owner, name = ssau.FieldOwner(fa), ssau.FieldName(fa)
+	case *ssa.Field:
+		owner, name = ssau.NamedOf(x.X.Type()), ssau.FieldName(x)
+	default:
+		return []ssa.Value{v}
+	}
+	if owner == optType || !strings.HasPrefix(owner, load.ModulePath) {
+		return []ssa.Value{v}
+	}
+	var out []ssa.Value
+	for _, fn := range shippedFuncs(c) {
+		ssau.ForEachInstr(fn, false, func(in ssa.Instruction) {
+			st, ok := in.(*ssa.Store)
+			if !ok {
+				return
+			}
+			if fa, ok := st.Addr.(*ssa.FieldAddr); ok && ssau.FieldOwner(fa) == owner && ssau.FieldName(fa) == name {
+				out = append(out, st.Val)
+			}
+		})
+	}
+	return out
+}
+
+// c04ListElems: the values stored as elements of the lists v can hold, looking
+// into helpers that build and return the list.
+func c04ListElems(c *Ctx, v ssa.Value) []ssa.Value {
+	var out []ssa.Value
+	var elemsOf func(l ssa.Value, d int)
+	elemsOf = func(l ssa.Value, d int) {
+		if d > 4 {
+			return
+		}
+		switch x := l.(type) {
+		case *ssa.Call:
+			if ssau.CallName(x) == "builtin.append" {
+				elemsOf(x.Common().Args[0], d+1)
+				if len(x.Common().Args) == 2 {
+					if e := appendedSingle(x); e != nil {
+						out = append(out, e)
+					} else {
+						elemsOf(x.Common().Args[1], d+1)
+					}
+				}
+				return
+			}
+			if g := x.Common().StaticCallee(); g != nil && c.P.IsRepoFunc(g) && len(g.Blocks) > 0 {
+				for _, ret := range ssau.ReturnsOf(g) {
+					elemsOf(ssau.ResultValue(ret, 0), d+1)
+				}
+			}
+		case *ssa.Slice:
+			if al, ok := x.X.(*ssa.Alloc); ok {
+				for _, ref := range *al.Referrers() {
+					if ia, ok := ref.(*ssa.IndexAddr); ok {
+						for _, r2 := range *ia.Referrers() {
+							if st, ok := r2.(*ssa.Store); ok && st.Addr == ssa.Value(ia) {
+								out = append(out, st.Val)
+							}
+						}
+					}
+				}
+				return
+			}
+			elemsOf(x.X, d+1)
+		case *ssa.MakeSlice:
+			for _, ref := range *x.Referrers() {
+				if ia, ok := ref.(*ssa.IndexAddr); ok {
+					for _, r2 := range *ia.Referrers() {
+						if st, ok := r2.(*ssa.Store); ok && st.Addr == ssa.Value(ia) {
+							out = append(out, st.Val)
+						}
+					}
+				}
+			}
+		case *ssa.Phi:
+			for _, e := range x.Edges {
+				elemsOf(e, d+1)
+			}
+		}
+	}
+	for _, src := range c04ListSources(c, v) {
+		if src != v {
+			elemsOf(src, 0)
+		}
+	}
+	return out
+}
+
+// c04InForceList: list (the list the gate walks) is, at every store of the
+// field it is read from, the result of a helper H(requested, host) called
+// with (options.Platforms, the host platform) such that H returns a one-
+// element list holding host exactly on the paths where len(requested) == 0,
+// and otherwise a list with one entry per element of requested (the element
+// itself or a repository normaliser applied to it).
+func c04InForceList(c *Ctx, list ssa.Value) (hostOK, reqOK bool) {
+	srcs := c04ListSources(c, list)
+	if len(srcs) == 0 || (len(srcs) == 1 && srcs[0] == list) {
+		return false, false
+	}
+	hostOK, reqOK = true, true
+	for _, src := range srcs {
+		call, ok := src.(*ssa.Call)
+		if !ok {
+			return false, false
+		}
+		h := call.Common().StaticCallee()
+		if h == nil || !c.P.IsRepoFunc(h) || len(h.Blocks) == 0 {
+			return false, false
+		}
+		// which parameters receive options.Platforms and the host platform
+		var req, host *ssa.Parameter
+		for i, a := range call.Common().Args {
+			if i >= len(h.Params) {
+				break
+			}
+			if optLoad(a, "Platforms") {
+				req = h.Params[i]
+			} else if hc, ok := a.(*ssa.Call); ok && strings.HasSuffix(ssau.CallName(hc), ".getCurrentPlatform") {
+				host = h.Params[i]
+			} else if p := ssau.ParamOf(a); p != nil && strings.Contains(strings.ToLower(p.Name()), "platform") {
+				host = h.Params[i]
+			}
+		}
+		if req == nil || host == nil {
+			return false, false
+		}
+		isReq := func(v ssa.Value) bool { return v == ssa.Value(req) || ssau.ParamOf(v) == req }
+		// the edges on which nothing was requested
+		none := map[[2]int]bool{}
+		some := map[[2]int]bool{}
+		for _, iff := range ssau.Ifs(h) {
+			if arg, zero, isZ := ssau.LenZeroTest(iff.Cond); isZ && isReq(arg) {
+				none[[2]int{iff.Block().Index, zero}] = true
+				some[[2]int{iff.Block().Index, 1 - zero}] = true
+			}
+		}
+		if len(none) == 0 {
+			return false, false
+		}
+		for _, ret := range ssau.ReturnsOf(h) {
+			rv := ssau.ResultValue(ret, 0)
+			onlyNone := !ssau.ReachableAvoidingEdges(h, ret.Block(), none)
+			onlySome := !ssau.ReachableAvoidingEdges(h, ret.Block(), some)
+			switch {
+			case onlyNone:
+				// [host]
+				good := false
+				if sl, ok := rv.(*ssa.Slice); ok {
+					if al, ok := sl.X.(*ssa.Alloc); ok {
+						n := 0
+						for _, ref := range *al.Referrers() {
+							if ia, ok := ref.(*ssa.IndexAddr); ok {
+								for _, r2 := range *ia.Referrers() {
+									if st, ok := r2.(*ssa.Store); ok && st.Addr == ssa.Value(ia) {
+										n++
+										good = st.Val == ssa.Value(host) || ssau.ParamOf(st.Val) == host
+									}
+								}
+							}
+						}
+						good = good && n == 1
+					}
+				}
+				if !good {
+					hostOK = false
+				}
+			case onlySome:
+				// one entry per requested platform
+				good := false
+				if mk, ok := rv.(*ssa.MakeSlice); ok {
+					if lc, ok := mk.Len.(*ssa.Call); ok && ssau.CallName(lc) == "builtin.len" && isReq(lc.Common().Args[0]) {
+						for _, l := range ssau.RangeLoops(h) {
+							if l.IsMap || l.Over == nil || !isReq(l.Over) {
+								continue
+							}
+							for _, ref := range *mk.Referrers() {
+								if ia, ok := ref.(*ssa.IndexAddr); ok && ia.Index == l.Index && l.InLoop(ia.Block()) {
+									good = true
+								}
+							}
+						}
+					}
+				}
+				if !good {
+					reqOK = false
+				}
+			default:
+				hostOK, reqOK = false, false
+			}
+		}
+	}
+	return hostOK, reqOK
 }
